@@ -2471,3 +2471,50 @@ func comparisonsAreStateless(c *Ctx, r *Report, rule string) {
 	}
 	r.Floor(rule, "closures of the sorting package", n, 2)
 }
+
+// identifiersComeFromAWrite: every function that hands out the identifier of an entry or of a manifest has put the
+// block into the store on the way — an identifier computed without the write names a block that this store may not
+// hold (a replica with its own store that persists what it received then appends on top of blocks it never wrote).
+func identifiersComeFromAWrite(c *Ctx, r *Report, rule string) {
+	p := c.P
+	stores := func(f *types.Func) bool {
+		if f.Pkg() == nil || p.firstParty(f.Pkg()) {
+			return false
+		}
+		sig := f.Type().(*types.Signature)
+		return sig.Recv() != nil && (f.Name() == "Add" || f.Name() == "AddMany") && strings.Contains(f.Pkg().Path(), "ipld")
+	}
+	n := 0
+	for _, t := range []struct{ pkg, recv, name string }{{"entry", "Entry", "ToMultihash"}, {"entry", "", "ToMultihashWithIO"}, {"", "IPFSLog", "ToMultihash"}, {"", "", "toMultihash"}} {
+		fn := p.FuncI(t.pkg, t.recv, t.name)
+		n++
+		fl := &Flow{P: p, Fn: fn, Entry: Facts{}}
+		mark := func(nd ast.Node, f Facts) {
+			walkNoLit(nd, func(m ast.Node) bool {
+				if call, ok := m.(*ast.CallExpr); ok && c.CallReaches(fn, call, stores) {
+					f["written"] = true
+				}
+				return true
+			})
+		}
+		fl.Node = mark
+		fl.Run()
+		fl.Exits(func(_ *cfgBlk, ret *ast.ReturnStmt, at Facts) {
+			if ret == nil || len(ret.Results) == 0 {
+				return
+			}
+			if se, ok := ast.Unparen(ret.Results[0]).(*ast.SelectorExpr); ok && se.Sel.Name == "Undef" {
+				return // a refusal
+			}
+			here := Facts{}
+			for k := range at {
+				here[k] = true
+			}
+			mark(ret, here)
+			r.Check(here["written"], rule, r.Key(rule, fn, "identifier-from-write", ""), ret.Pos(),
+				"the identifier handed out here comes after a call that reaches the block store's Add",
+				fmt.Sprintf("%s can hand out an identifier without having put the block into the store: a replica that persists the entries it received through it, and then appends, leaves its store with an entry block whose predecessors are missing — the head hash it returns does not load from that store", fn.Name))
+		})
+	}
+	r.Floor(rule, "functions that hand out identifiers", n, 4)
+}
